@@ -651,7 +651,7 @@ class CCA(CCABaseModel):
 
         unstacked_transformed_views = []
         for i, view in enumerate(transformed_views):
-            unstacked_view = self.preprocessors[i].inverse_transform_scores(view)
+            unstacked_view = self.preprocessors[i].inverse_transform_scores_unseen(view)
             unstacked_transformed_views.append(unstacked_view)
         return unstacked_transformed_views
 
